@@ -98,7 +98,20 @@ fn allowed_spans(root: &toml_edit::Item, f: &Fired) -> Vec<std::ops::Range<usize
     let (npath, _, truncated) = to_path(&f.path);
     // a private protocol's own field names are read in key position too, but they belong to the node
     let _ = truncated;
-    let key_level = f.in_key && !(f.key_depth == 1 && is_private_key(&f.payload));
+    // ... (for a seed-level failure the field name is not known yet: the innermost hint tells whether the
+    // map being read is a private protocol's)
+    // (a protocol requested *in key position* — `Spanned<String>` keys — belongs to the key; the date-time
+    // protocol is only served for date-time values: asked of anything else the reader gets the real map)
+    let node_is_datetime = matches!(
+        resolve(root, &npath),
+        Some(NodeRef::Item(toml_edit::Item::Value(toml_edit::Value::Datetime(_)))) | Some(NodeRef::Value(toml_edit::Value::Datetime(_)))
+    );
+    let hint_private = f
+        .hints
+        .last()
+        .map(|h| !h.in_key && (h.name.starts_with("$__serde_spanned_private") || (h.name.starts_with("$__toml_private") && node_is_datetime)))
+        .unwrap_or(false);
+    let key_level = f.in_key && !(f.key_depth == 1 && (is_private_key(&f.payload) || (f.cb == "seed" && hint_private)));
     let loc = |path: &[PathSeg], key_level: bool| -> Option<std::ops::Range<usize>> {
         let n = resolve(root, path)?;
         if key_level {
@@ -142,7 +155,7 @@ fn allowed_spans(root: &toml_edit::Item, f: &Fired) -> Vec<std::ops::Range<usize
     // from N only for the visitor handed directly to `tuple_variant` / `struct_variant`. For a tuple
     // variant the library builds the sequence itself and attaches the enum value's span, which is
     // accepted; a struct variant's payload is a table with a span of its own and must be named.
-    let p_applies = f.direct_variant != Some("struct_variant");
+    let p_applies = f.direct_variant != Some("struct_variant") && f.cb != "seed";
     if let (Some(h), true) = (f.hints.last(), p_applies) {
         let (ppath, _, _) = to_path(&f.path[..h.plen.min(f.path.len())]);
         with_fallback(&ppath, h.in_key && !(h.key_depth == 1 && is_private_key(&f.payload)), &mut allowed);
@@ -283,8 +296,9 @@ pub fn execute(sc: &Scenario, verbose: bool) -> RunOut {
         Ok(Ok(d)) => d,
     };
     out.stats.inc(&format!("workload.{}", sc.workload));
-    let single: Option<(u32, bool)> = match sc.fault {
-        FaultSpec::Vis(k, e) => Some((k, e)),
+    let single: Option<Fault> = match sc.fault {
+        FaultSpec::Vis(k, exit) => Some(Fault::Vis { k, exit }),
+        FaultSpec::Seed(k, exit) => Some(Fault::Seed { k, exit }),
         _ => None,
     };
     enumerate_faults(text, im.as_item(), single, sc, verbose, &mut out, &|route, fault, keep| {
@@ -299,7 +313,7 @@ pub fn execute(sc: &Scenario, verbose: bool) -> RunOut {
 pub type RouteRun<'a> = dyn Fn(&'static str, Fault, bool) -> (std::thread::Result<Result<String, RouteErr>>, Ctx) + 'a;
 
 /// The enumeration itself, independent of who the reader is (stub peer or a real derived type).
-pub fn enumerate_faults(text: &str, root: &toml_edit::Item, single: Option<(u32, bool)>, sc: &Scenario, verbose: bool, out: &mut RunOut, route_run: &RouteRun<'_>) {
+pub fn enumerate_faults(text: &str, root: &toml_edit::Item, single: Option<Fault>, sc: &Scenario, verbose: bool, out: &mut RunOut, route_run: &RouteRun<'_>) {
     let mut rendered_seen: std::collections::HashSet<String> = std::collections::HashSet::new();
     for route in ROUTES {
         if !sc.wants(route) {
@@ -315,9 +329,9 @@ pub fn enumerate_faults(text: &str, root: &toml_edit::Item, single: Option<(u32,
                 }
             }
             let fired = cx.fired.borrow().clone();
-            (r, cx.vis_count.get(), fired)
+            (r, (cx.vis_count.get(), cx.seed_count.get()), fired)
         };
-        let (r0, n, _) = run(Fault::None, out, false);
+        let (r0, (n, m), _) = run(Fault::None, out, false);
         let r0 = match r0 {
             Ok(r) => r,
             Err(p) => {
@@ -350,30 +364,45 @@ pub fn enumerate_faults(text: &str, root: &toml_edit::Item, single: Option<(u32,
                 }
             }
         }
-        let positions: Vec<(u32, bool)> = match single {
-            Some(p) => vec![p],
-            None if text.len() > 2048 && n > 48 => {
+        let sample = |n: u32, lo: u32, out: &mut RunOut| -> Vec<u32> {
+            if text.len() > 2048 && n > 48 {
                 // long documents (each execution re-parses the text): the fault position is sampled —
-                // the first 16, the last 16 and 16 evenly spaced callbacks — instead of enumerated
+                // the first 16, the last 16 and 16 evenly spaced — instead of enumerated
                 out.stats.inc("probe.positions_sampled_for_long_document");
                 let n = n.min(4096);
-                let mut ks: Vec<u32> = (0..16).chain(n - 16..n).chain((1..17).map(|i| i * (n / 17))).collect();
+                let mut ks: Vec<u32> = (lo..16).chain(n - 16..n).chain((1..17).map(|i| i * (n / 17))).collect();
                 ks.sort();
                 ks.dedup();
-                ks.into_iter().flat_map(|k| [(k, false), (k, true)]).collect()
+                ks
+            } else {
+                (lo..n.min(MAX_CALLBACKS)).collect()
             }
-            None => (0..n.min(MAX_CALLBACKS)).flat_map(|k| [(k, false), (k, true)]).collect(),
         };
-        if n > MAX_CALLBACKS {
-            out.stats.inc("probe.callbacks_capped");
-        }
-        for (k, exit) in positions {
-            let (r, _, fired) = run(Fault::Vis { k, exit }, out, verbose && single.is_some());
+        let positions: Vec<Fault> = match single {
+            Some(p) => vec![p],
+            None => {
+                let mut v: Vec<Fault> = sample(n, 0, out).into_iter().flat_map(|k| [Fault::Vis { k, exit: false }, Fault::Vis { k, exit: true }]).collect();
+                // F-SEED: seed 0 is the root (`T::deserialize` of the whole document, which the library
+                // never sees fail) and is skipped
+                v.extend(sample(m, 1, out).into_iter().flat_map(|k| [Fault::Seed { k, exit: false }, Fault::Seed { k, exit: true }]));
+                v
+            }
+        };
+        for fault in positions {
+            let (k, exit, is_seed) = match fault {
+                Fault::Vis { k, exit } => (k, exit, false),
+                Fault::Seed { k, exit } => (k, exit, true),
+                _ => continue,
+            };
+            let (r, _, fired) = run(fault, out, verbose && single.is_some());
             let fired = match fired {
                 Some(f) => f,
                 None => continue, // an exit fault on a callback that fails by itself does not fire
             };
-            out.stats.inc("fault.F-VIS.fired");
+            if is_seed && fired.path.is_empty() && !fired.in_key {
+                continue; // root-level seed (only possible when replaying k = 0)
+            }
+            out.stats.inc(if is_seed { "fault.F-SEED.fired" } else { "fault.F-VIS.fired" });
             out.stats.inc(&format!("faultsite.{}.{}.{}", if has_text(route) { "text" } else { "notext" }, fired.cb, if exit { "exit" } else { "entry" }));
             if fired.in_key {
                 out.stats.inc("probe.fault_in_key_callback");
